@@ -82,6 +82,8 @@ struct EngineRun {
         engine->removeDropInConfig(tag);
       } else {
         adaptor->remove(tag);
+        if (op.get("defer", false).asBool()) return "queued";
+        adaptor->results.clear();
         adaptor->updateDropIns();
       }
       return "ok";
@@ -103,10 +105,13 @@ struct EngineRun {
       return engine->addDropInConfig(tag, std::move(*unit)) ? "ok" : "refused-engine";
     }
     if (!adaptor->add(tag, *dir)) return "refused-compile";
+    if (op.get("defer", false).asBool()) return "queued";
     adaptor->results.clear();
     adaptor->updateDropIns();
-    if (adaptor->results.size() == 1 && adaptor->results[0].second) return "ok";
-    return "refused-engine";
+    // results of everything that was queued, this operation's last
+    for (auto& r : adaptor->results)
+      if (!r.second) return "refused-engine";
+    return adaptor->results.empty() ? "refused-engine" : "ok";
   }
 
   Probe probe() {
@@ -191,16 +196,44 @@ Json::Value genCase() {
   sc["base"] = base;
   int nops = R(1, 12);
   std::set<std::string> active; // generator's view, to keep failing adds off active tags
+  std::vector<std::pair<std::string, bool>> queued; // (tag, is add) waiting in the adaptor queue
+  auto settle = [&](const Json::Value& o, bool isAdd, bool takesEffect) {
+    // mirrors when an operation reaches the engine: at once (engine), with the
+    // whole queue (undeferred adaptor operation), or not yet (deferred)
+    std::string t = o["tag"].asString();
+    if (!takesEffect) return;
+    if (o["via"].asString() == "engine") {
+      if (isAdd) {
+        active.insert(t);
+      } else {
+        active.erase(t);
+      }
+      return;
+    }
+    queued.emplace_back(t, isAdd);
+    if (o.get("defer", false).asBool()) return;
+    for (auto& q : queued) {
+      if (q.second) {
+        active.insert(q.first);
+      } else {
+        active.erase(q.first);
+      }
+    }
+    queued.clear();
+  };
   Json::Value ops(Json::arrayValue);
   for (int k = 0; k < nops; k++) {
     Json::Value op(Json::objectValue);
     std::string tag = "t" + std::to_string(R(0, 3));
     op["tag"] = tag;
     op["via"] = P(30) ? "engine" : "adaptor";
+    // several watcher events between two main-loop ticks: the operation is only
+    // queued; the queue is applied, in order, by the next undeferred adaptor operation
+    if (op["via"].asString() == "adaptor" && k < nops - 1 && P(30)) op["defer"] = true;
     int kind = W({50, 25, 25});
     if (kind == 1) {
       op["op"] = "remove";
-      active.erase(tag);
+      settle(op, false, true);
       ops.append(op);
       continue;
     }
@@ -297,7 +330,7 @@ Json::Value genCase() {
     for (int h = 0; h < nhk; h++) cfg["prekill_hooks"].append(hookJ(pre + "h" + std::to_string(h)));
     op["config"] = cfg;
     op["expect_fail"] = failing;
-    if (!failing) active.insert(tag);
+    settle(op, true, !failing);
     ops.append(op);
   }
   sc["ops"] = ops;
@@ -492,7 +525,8 @@ Verdict run(const Json::Value& sc) {
   Probe finalA;
   std::string revert = sc["revert_tag"].asString();
   bool revertTouched = false;
-  int readdNotNewest = 0, partialAfterSuccess = 0;
+  int readdNotNewest = 0, partialAfterSuccess = 0, bursts = 0, burstOps = 0;
+  std::vector<bool> flushedAt(sc["ops"].size(), false); // operation k applied the adaptor queue
   try {
     EngineRun er;
     if (!er.init(sc["base"], sim.cgroot())) {
@@ -504,6 +538,7 @@ Verdict run(const Json::Value& sc) {
     m.init(sc["base"]);
     std::map<std::string, int64_t> serialOfKey; // instance key + pos -> serial
     int successes = 0;
+    std::vector<Json::Value> pending; // queued through the adaptor, not applied yet
     auto check = [&](const std::string& when) {
       Probe p = er.probe();
       auto exp = m.expected();
@@ -560,34 +595,58 @@ Verdict run(const Json::Value& sc) {
       std::string tag = op["tag"].asString();
       if (tag == revert) revertTouched = true;
       std::string res = er.apply(op);
-      if (op["op"].asString() == "remove") {
-        m.remove(tag);
-      } else {
+      bool deferred = res == "queued";
+      bool viaAdaptor = op.get("via", "adaptor").asString() == "adaptor";
+      auto applyToModel = [&](const Json::Value& o) {
+        std::string t = o["tag"].asString();
+        if (o["op"].asString() == "remove") {
+          m.remove(t);
+          return;
+        }
+        // is the tag live and not the newest?
+        bool live = false, newest = true;
+        for (auto& b : m.bases)
+          for (size_t di = 0; di < b.drops.size(); di++)
+            if (b.drops[di].tag == t) {
+              live = true;
+              if (di != 0) newest = false;
+            }
+        if (live && !newest) readdNotNewest++;
+        m.add(t, o["config"]);
+        successes++;
+      };
+      bool modelOp = true; // does this operation change the model (now or at the flush)?
+      if (op["op"].asString() != "remove") {
         bool ok = m.valid(op["config"], op.get("phantom", false).asBool());
-        if (ok && res != "ok") {
+        if (ok && res != "ok" && res != "queued") {
           v.fail(when + ": valid drop-in was " + res);
           break;
         }
-        if (!ok && res == "ok") {
+        if (!ok && (res == "ok" || res == "queued")) {
           v.fail(when + ": invalid drop-in was accepted");
           break;
         }
-        if (ok) {
-          // is the tag live and not the newest?
-          bool live = false, newest = true;
-          for (auto& b : m.bases)
-            for (size_t di = 0; di < b.drops.size(); di++)
-              if (b.drops[di].tag == tag) {
-                live = true;
-                if (di != 0) newest = false;
-              }
-          if (live && !newest) readdNotNewest++;
-          m.add(tag, op["config"]);
-          successes++;
-        } else {
+        if (!ok) {
+          modelOp = false;
           if (successes > 0) partialAfterSuccess++;
           // engine-stage refusal removes the (inactive) tag: no model change
         }
+      }
+      if (deferred) {
+        pending.push_back(op);
+        burstOps++;
+      } else if (viaAdaptor) {
+        // this operation's updateDropIns() applied the whole queue in order
+        // (a refused add queues nothing, but an undeferred refusal does not flush either)
+        if (modelOp) {
+          flushedAt[k - 1] = true;
+          for (auto& o : pending) applyToModel(o);
+          if (pending.size() >= 2) bursts++;
+          pending.clear();
+          applyToModel(op);
+        }
+      } else if (modelOp) {
+        applyToModel(op); // straight to the engine, ahead of whatever is queued
       }
       check(when);
     }
@@ -598,6 +657,14 @@ Verdict run(const Json::Value& sc) {
       rm["tag"] = revert;
       rm["via"] = "adaptor";
       er.apply(rm);
+      for (auto& o : pending) {
+        if (o["op"].asString() == "remove") {
+          m.remove(o["tag"].asString());
+        } else {
+          m.add(o["tag"].asString(), o["config"]);
+        }
+      }
+      pending.clear();
       m.remove(revert);
       check("after final remove(" + revert + ")");
     }
@@ -611,10 +678,17 @@ Verdict run(const Json::Value& sc) {
     try {
       EngineRun er2;
       er2.init(sc["base"], sim.cgroot());
+      int k2 = 0;
       for (auto& op : sc["ops"]) {
-        if (op["tag"].asString() == revert) continue;
+        bool fl = flushedAt[k2++];
+        if (op["tag"].asString() == revert) {
+          // the operation is left out, the main-loop tick it stood for is not
+          if (fl) er2.adaptor->updateDropIns();
+          continue;
+        }
         er2.apply(op);
       }
+      er2.adaptor->updateDropIns();
       Probe b = er2.probe();
       auto ids = [](const Probe& p) {
         std::string s;
@@ -629,7 +703,8 @@ Verdict run(const Json::Value& sc) {
     }
     g.active = false;
   }
-  if (readdNotNewest > 0 || partialAfterSuccess > 0) v.nontrivial = true;
+  if (readdNotNewest > 0 || partialAfterSuccess > 0 || bursts > 0) v.nontrivial = true;
+  if (bursts) v.labels.push_back("queued_burst");
   if (readdNotNewest) v.labels.push_back("readd_not_newest");
   if (partialAfterSuccess) v.labels.push_back("refused_after_success");
   if (revertTouched) v.labels.push_back("reversibility_checked");
